@@ -16,6 +16,7 @@ code_hook = c01.code_hook
 
 
 def r02_2(run):
+    RID = 'R02.2'
     ci = proto(run)
     sites = 0
     reps = [c for c in c01.code_reps(run) if c01.code_class(c) == '6xx']
@@ -34,6 +35,11 @@ def r02_2(run):
                         bad.setdefault(id(a), (a, c, p))
         for call in cbcalls:
             hit = bad.get(id(call))
+            if hit is not None and any(n.kind == 'test' and isinstance(n.ast, ast.Call) and (dotted(n.ast.func) or '').startswith('self.')
+                                       for n, _ in hit[2].steps):
+                run.ob(RID, u, call, 'reachability decided', None, message='the path to the per-line callback depends on %s, which the checker cannot see through' %
+                       [src(n.ast) for n, _ in hit[2].steps if n.kind == 'test' and isinstance(n.ast, ast.Call)][:2])
+                continue
             run.ob('R02.2', u, call, 'per-line callback unreachable while the current reply is a 6xx event', hit is None,
                    slot='linecb@%s' % u.short,
                    message='%s hands a line of a 650 event to the in-flight command\'s per-line callback '
